@@ -127,6 +127,9 @@ def rmw(isa, fl, src, b, x, s, d):
     return _fin(ins)
 
 
+_ALT = [0]
+
+
 def bump(isa, fl, r, v):
     m = MN[fl][isa]
     if isa == "x86":
@@ -135,7 +138,12 @@ def bump(isa, fl, r, v):
         else:
             ins = _base("%s $%d, %%%s" % (m["add"] if v > 0 else m["sub"], abs(v), wide(isa, r)))
     else:
-        ins = _base("%s %s, %s, #%d" % (m["add"] if v > 0 else m["sub"], wide(isa, r), wide(isa, r), abs(v)))
+        mn = m["add"] if v > 0 else m["sub"]
+        if fl == "real":
+            # the flag-setting forms move the pointer exactly like the plain ones (every other real bump uses them)
+            _ALT[0] ^= 1
+            mn += "s" if _ALT[0] else ""
+        ins = _base("%s %s, %s, #%d" % (mn, wide(isa, r), wide(isa, r), abs(v)))
     ins["R"].add(r)
     ins["W"].add(r)
     ins["CH"] = [{"r": r, "kind": "add", "src": r, "v": v}]
